@@ -3,7 +3,7 @@
    Model/Cable.v (assembly of the cable system of a cell; schemes).  The conductance
    formulas G*.X are regenerated from /repo on every run. *)
 From Coq Require Import Reals List Lia Lra.
-From JV Require Import Prim TreeSolve TreeSolveFacts Cable GCellUtils CableFacts HinesArr HinesCheck HinesArrFacts HinesIdx HinesTreeFacts HinesIdxFacts HinesArrPositive AsmStruct AssembleM AssembleTotal AsmIdx AsmIdxFacts AssembleGraph AsmGraphFacts EdgeCond EdgeCondFacts GraphStruct GraphStructFacts HinesForestFacts HinesIdxF HinesIdxFFacts AsmIdxF AsmIdxFFacts AsmGraphFFacts ForestPhysical GraphCN CNFacts GraphMax SparseAsm SparseFacts SparseInst SparseDense.
+From JV Require Import Prim TreeSolve TreeSolveFacts Cable GCellUtils CableFacts HinesArr HinesCheck HinesArrFacts HinesIdx HinesTreeFacts HinesIdxFacts HinesArrPositive AsmStruct AssembleM AssembleTotal AsmIdx AsmIdxFacts AssembleGraph AsmGraphFacts EdgeCond EdgeCondFacts GraphStruct GraphStructFacts HinesForestFacts HinesIdxF HinesIdxFFacts AsmIdxF AsmIdxFFacts AsmGraphFFacts ForestPhysical GraphCN CNFacts GraphMax SparseAsm SparseFacts SparseInst SparseDense SparseDenseInst.
 Import ListNotations.
 Local Open Scope R_scope.
 
@@ -503,3 +503,14 @@ Theorem C01_sparse_dense_rows :
   forall i, (i < n_nodes)%nat ->
   rsum (fun j => sp_entry R Rplus Rminus Rmult 0 1 ncomp es vt dt i j * z j) n_nodes = sp_row R Rplus Rminus Rmult 0 1 ncomp es vt dt z i.
 Proof. exact dense_row_is_sp_row. Qed.
+
+(* ... and its hypotheses hold for every structure meeting the decidable conditions (every cell, every network): the
+   dense matrix applied to z is the left-hand side of the graph equations, row by row *)
+Theorem C01_sparse_dense_rows_of_every_structure :
+  forall (ly : layout) (tp : topo), wf ly tp ->
+  forall (mask : nat -> nat) (ncomp : nat) (es : list (edge R)) (group child_inds par_inds : list nat),
+  graph_struct ly tp mask ncomp es group child_inds par_inds -> graph_struct_bp ly mask ncomp es group child_inds par_inds ->
+  (forall e, In e es -> (e_type R e <= 4)%nat) ->
+  forall (vt : nat -> R) (dt : R) (z : nat -> R) (i : nat), (i < ncomp + nbp tp)%nat ->
+  rsum (fun j => sp_entry R Rplus Rminus Rmult 0 1 ncomp es vt dt i j * z j) (ncomp + nbp tp) = sp_row R Rplus Rminus Rmult 0 1 ncomp es vt dt z i.
+Proof. exact dense_rows_of_the_structure. Qed.
